@@ -473,6 +473,12 @@ static void gen_c11(const std::string& tier, std::vector<Work>& W) {
                     { bytes sc = C({P(p.first), P(p.second), O(0xac)}); compare_explicit(c, sc, {}, fl, "listed pair, signature pushed by the script, CHECKSIG list=" + ldesc, "mock:listed-pair-in-script", V, S, L, with_tx, false, "c11"); }
                     { bytes sc = C({O(0x00), P(p.first), O(0x51), P(p.second), O(0x51), O(0xae)}); compare_explicit(c, sc, {}, fl, "listed pair, signature pushed by the script, 1-of-1 multisig list=" + ldesc, "mock:listed-pair-in-script-multisig", V, S, L, with_tx, false, "c11"); }
                 }
+                // (1c) non-interference: the listed signature written into a script that involves none of the listed keys - the rules about
+                //      signatures inside the script code apply as without the option
+                for (auto& p : L) for (uint32_t fl2 : {fl, fl & ~(F_STRICTENC | F_DERSIG | F_LOW_S | F_NULLFAIL)}) {
+                    { bytes sc = C({O(0x00), P(p.first), O(0x51), P(keys[2].pub), O(0x51), O(0xae)}); compare_explicit(c, sc, {}, fl2, "listed signature pushed by a script that does not involve the listed key, 1-of-1 multisig list=" + ldesc, "mock:non-interference:listed-signature-in-script-multisig", V, S, L, with_tx, false, "c11"); }
+                    { bytes sc = C({P(p.first), P(keys[2].pub), O(0xac)}); compare_explicit(c, sc, {}, fl2, "listed signature pushed by a script that does not involve the listed key, CHECKSIG list=" + ldesc, "mock:non-interference:listed-signature-in-script", V, S, L, with_tx, false, "c11"); }
+                }
                 // (2) a signature other than the listed one offered for a mocked key is not accepted on the strength of the option
                 for (auto& p : L) { bytes sc = C({P(p.second), O(0xac)}); bool listed = false; for (auto& q : L) if (q.first == s3 && q.second == p.second) listed = true; if (!listed) compare_explicit(c, sc, {s3}, fl & ~(F_STRICTENC | F_DERSIG | F_LOW_S | F_NULLFAIL), "unlisted signature for a mocked key list=" + ldesc, "mock:other-signature", V, S, L, with_tx, false, "c11"); }
             }
@@ -563,18 +569,19 @@ static void gen_c11(const std::string& tier, std::vector<Work>& W) {
     }
     // malformed lists
     W.push_back({[=](Violations& V, Stats2& S) {
-        for (const char* e : {"aa", "aa:", ":bb", "aa::bb", "aa:bb,", ",aa:bb", "aa:bb,,cc:dd", "aa:bb:cc", "", ","}) {
+        for (const char* e : {"aa", "aa:", ":bb", "aa::bb", "aa:bb,", ",aa:bb", "aa:bb,,cc:dd", "aa:bb:cc", "", ",", "aa:bb,cc:", "aa:,bb:cc", ":aa,bb:cc", "aa:bb,:cc", ":", "aa:bb,cc", "aa:bb,cc:dd", "aa:bb,cc:dd,ee:ff", "aa:bb,aa:cc", "aa:bb,cc:dd,"}) {
             impl::quiet_globals(); Instance inst; bool ok;
             try { ok = inst.parse_pretend_valid_expr(e); } catch (const std::exception&) { ok = false; }
             S.sessions++;
             // which lists are well-formed: non-empty comma-separated items, each exactly SIG ':' KEY with both parts non-empty
-            // malformed: an item without a colon or with more than one colon (an empty list, a trailing comma and empty
-            // signature/key parts are tolerated: the property does not call them malformed; they are counted as observations)
+            // malformed: an item without a colon or with more than one colon, or with an empty signature or key part - a signature without
+            // key (aa:) would otherwise be dropped without a word (an empty list and a trailing comma are tolerated: the property does not
+            // call them malformed; they are counted as observations)
             std::string s = e; bool wf = true; bool arguable = s.empty(); size_t p = 0;
             while (!s.empty() && p <= s.size()) { size_t q = s.find(',', p); std::string it = s.substr(p, q == std::string::npos ? std::string::npos : q - p); size_t col = it.find(':');
                 if (it.empty() && q == std::string::npos && p > 0) { arguable = true; break; }
                 if (col == std::string::npos || it.find(':', col + 1) != std::string::npos) wf = false;
-                else if (col == 0 || col + 1 >= it.size()) arguable = true;
+                else if (col == 0 || col + 1 >= it.size()) wf = false;
                 if (q == std::string::npos) break; p = q + 1; }
             if (arguable && wf) { S.outcomes[std::string("arguable-list-") + (ok ? "accepted" : "rejected")]++; continue; }
             S.outcomes[ok ? "list-accepted" : "list-rejected"]++;
